@@ -61,6 +61,8 @@ void forget(const void *p, size_t n);
 // size PCT change points from the "alone" pass.
 uint64_t alone_steps();
 void alone_steps_reset();
+// step budget for library code running outside run() (0 = none): exceeding it exits with status 78
+void alone_budget(uint64_t budget);
 
 // Footprint monitor without fibers (C09): collect the accesses of a call.
 struct Access {
